@@ -233,6 +233,24 @@ def oracle(ctx):
     ref = tz.tzstr("EST5EDT,M4.1.0,M10.5.0")
     ups, _ = Z.range_probes(ref, [1990, 2000, 2003, 2020])
     law(ctx, "tzical", "tzical:US-Eastern", ical, ups)
+    # tzical zones with finite rules (UNTIL, COUNT), RDATE lists and several eras; non-monotone query
+    # histories on ONE zone object against a fresh object per query (history independence; seed C04G)
+    for vname, text in Z.FINITE_VTZS:
+        shared = Z.load_vtz(text)
+        onsets = Z.vtz_onsets_utc(Z.load_vtz(text))
+        pts = [t + d for t in onsets for d in (-1, 0, 1, -3600, 3600)]
+        rng = ctx.subrng("c04-vtz-" + vname)
+        order = list(pts); rng.shuffle(order)
+        history = [Z.ts(datetime.datetime(2020, 6, 1, 12))] + order + sorted(pts, reverse=True)[:40] + sorted(pts)[:40]
+        for t in history:
+            got = Z.impl_fromutc_line(shared, t)
+            ref = Z.impl_fromutc_line(Z.load_vtz(text), t)
+            ctx.case(("tzical-history", vname, t)); ctx.count("law:tzical-history")
+            if got != ref:
+                Z.report(ctx, KNOWN, "tzical:%s UTC %d: the zone object answers %s after earlier queries, a fresh object answers %s"
+                         % (vname, t, got, ref), {"kind": "tzical-history", "zone": vname, "t": t}, {"shared": got, "fresh": ref})
+        law(ctx, "tzical", "tzical:" + vname, shared, sorted(set(pts)))
+        law(ctx, "tzical", "tzical:" + vname + "(fresh)", Z.load_vtz(text), sorted(set(pts)))
     for s in Z.LOCAL_TZS + ["Europe/London", "Australia/Lord_Howe"]:
         if os.path.isfile(os.path.join(Z.ROOT, s)):
             data = open(os.path.join(Z.ROOT, s), "rb").read()
